@@ -466,9 +466,8 @@ def _lower_ifexp(body):
     out = []
     for st in body:
         v = st.value if isinstance(st, (ast.Assign, ast.Return, ast.Expr)) else None
-        if isinstance(v, ast.IfExp) and _pure_arg(v.test) and any(isinstance(n, ast.Call) for br in (v.body, v.orelse) for n in ast.walk(br)) \
-                and not (isinstance(st, ast.Assign) and any(isinstance(n, ast.Name) and n.id in {m.id for m in ast.walk(v.test) if isinstance(m, ast.Name)}
-                                                            for t in st.targets for n in ast.walk(t))):
+        # (the test is evaluated once and first in both spellings, so no purity condition is needed)
+        if isinstance(v, ast.IfExp) and any(isinstance(n, ast.Call) for br in (v.body, v.orelse) for n in ast.walk(br)):
             a, b = copy.copy(st), copy.copy(st)
             a.value, b.value = v.body, v.orelse
             out.append(ast.copy_location(ast.If(test=v.test, body=[a], orelse=[b]), st))
